@@ -205,6 +205,8 @@ class C22(Check):
         upd_stamps = []            # stamps of the updates since the previous record
         prev_rec_stamp = None
         self._causes = {}
+        self._was_running = False      # per execution: no state may survive from the previous plan
+        logged_at = {}                 # stamp -> a record was written at that stamp
         logged_once = False
         last_vals = None
         loggees = {"v": (".sim.v",), "two": (".sim.v", ".sim.w")}
@@ -300,5 +302,4 @@ class C22(Check):
     _was_running = False
 
 
-logged_at = {}
 CHECK = C22()
